@@ -169,6 +169,56 @@ func baseObj(d *declInfo, e ast.Expr) types.Object {
 	}
 }
 
+// builtInLoop: the loop-local variable o holds a value constructed in this iteration (composite
+// literal, &literal, new/make) — stores into it build the element, they do not accumulate.
+func builtInLoop(d *declInfo, o types.Object, loop ast.Node) bool {
+	built := false
+	ast.Inspect(loop, func(n ast.Node) bool {
+		var lhs []ast.Expr
+		var rhs []ast.Expr
+		switch s := n.(type) {
+		case *ast.AssignStmt:
+			lhs, rhs = s.Lhs, s.Rhs
+		case *ast.ValueSpec:
+			for _, nm := range s.Names {
+				lhs = append(lhs, nm)
+			}
+			rhs = s.Values
+			if len(rhs) == 0 {
+				for _, nm := range s.Names {
+					if d.pkg.TypesInfo.Defs[nm] == o {
+						built = true // var x T: zero value built here
+					}
+				}
+			}
+		default:
+			return true
+		}
+		if len(lhs) != len(rhs) {
+			return true
+		}
+		for i, l := range lhs {
+			if objOf(d.pkg, l) != o {
+				continue
+			}
+			e := rhs[i]
+			if u, ok := e.(*ast.UnaryExpr); ok && u.Op == token.AND {
+				e = u.X
+			}
+			switch x := e.(type) {
+			case *ast.CompositeLit:
+				built = true
+			case *ast.CallExpr:
+				if id, ok := x.Fun.(*ast.Ident); ok && (id.Name == "new" || id.Name == "make") {
+					built = true
+				}
+			}
+		}
+		return true
+	})
+	return built
+}
+
 var mutatorPrefixes = []string{"Add", "Relate", "Remove", "Set", "Merge", "Store", "Update", "Augment"}
 
 // accumulateSteps finds the accumulate steps of a loop body (not descending into nested loops'
@@ -184,8 +234,15 @@ func accumulateSteps(d *declInfo, loop ast.Stmt, body *ast.BlockStmt) []accStep 
 		case *ast.AssignStmt:
 			for i, l := range s.Lhs {
 				o := baseObj(d, l)
-				if o == nil || !declaredOutside(o, loop) {
+				if o == nil {
 					continue
+				}
+				if !declaredOutside(o, loop) {
+					// a store through a loop-local reference (x.F = …, x[i] = …) writes memory that
+					// outlives the iteration unless x is an element being built in this iteration
+					if _, bare := l.(*ast.Ident); bare || builtInLoop(d, o, loop) {
+						continue
+					}
 				}
 				if _, isPkg := o.(*types.PkgName); isPkg {
 					continue
@@ -224,7 +281,7 @@ func accumulateSteps(d *declInfo, loop ast.Stmt, body *ast.BlockStmt) []accStep 
 					if f != nil && f.Type().(*types.Signature).Recv() != nil {
 						for _, p := range mutatorPrefixes {
 							if strings.HasPrefix(sel.Sel.Name, p) {
-								if o := baseObj(d, sel.X); o != nil && declaredOutside(o, loop) {
+								if o := baseObj(d, sel.X); o != nil && (declaredOutside(o, loop) || !builtInLoop(d, o, loop)) {
 									out = append(out, accStep{s, "call " + types.ExprString(sel)})
 								}
 							}
